@@ -70,7 +70,7 @@ class Tla:
 def run_tlc(workdir, root, consts, spec=None, init=None, next_=None, invariants=(), view=None,
             constraint=None, postcondition=None, workers=None, simulate=None, env=None, timeout=600,
             deadlock=False, extra_defs="", extends_extra=(), jvm=(), coverage=False, seed=None,
-            depth_first=False, properties=()):
+            depth_first=False, properties=(), printed_cap=250000):
     """Write a wrapper module + cfg in workdir and run TLC. consts: dict name -> python value / Tla."""
     os.makedirs(workdir, exist_ok=True)
     tag = "W" + root
@@ -122,38 +122,58 @@ def run_tlc(workdir, root, consts, spec=None, init=None, next_=None, invariants=
     if env:
         e.update({k: str(v) for k, v in env.items()})
     t0 = time.time()
+    outp = os.path.join(workdir, "tlc.out")
+    # the output goes to a file and is scanned line by line: generators print up to millions of cases
     try:
-        p = subprocess.run(cmd, cwd=workdir, env=e, stdout=subprocess.PIPE, stderr=subprocess.STDOUT,
-                           timeout=timeout, text=True, errors="replace")
+        with open(outp, "w") as fo:
+            p = subprocess.run(cmd, cwd=workdir, env=e, stdout=fo, stderr=subprocess.STDOUT, timeout=timeout)
     except subprocess.TimeoutExpired as ex:
+        shutil.rmtree(meta, ignore_errors=True)
         raise ToolError("TLC timeout after %ss in %s" % (timeout, workdir))
     r = TlcResult()
     r.wall = time.time() - t0
-    r.stdout = p.stdout
-    with open(os.path.join(workdir, "tlc.out"), "w") as f:
-        f.write(p.stdout)
     shutil.rmtree(meta, ignore_errors=True)
-    for line in p.stdout.splitlines():
-        m = re.match(r"^(\d+) states generated, (\d+) distinct states found", line)
-        if m:
-            r.generated, r.distinct = int(m.group(1)), int(m.group(2))
-        m = re.match(r"^The depth of the complete state graph search is (\d+)", line)
-        if m:
-            r.depth = int(m.group(1))
-        m = re.match(r"^Error: Invariant (\S+) is violated", line)
-        if m:
-            r.violated = m.group(1)
-        if line.startswith("Error: Deadlock reached"):
-            r.deadlock = True
-        if line.startswith("<<") or line.startswith('"'):
-            r.printed.append(line)
+    import random as _random
+    rnd = _random.Random(seed if seed is not None else 1)
+    other = []          # everything that is not a printed value (bounded)
+    r.nprinted = 0
+    with open(outp, errors="replace") as fi:
+        for line in fi:
+            line = line.rstrip("\n")
+            if line.startswith("<<") or line.startswith('"'):
+                # printed values: all of them up to printed_cap, beyond that a uniform sample (reservoir)
+                r.nprinted += 1
+                if printed_cap is None or len(r.printed) < printed_cap:
+                    r.printed.append((r.nprinted, line))
+                else:
+                    j = rnd.randrange(r.nprinted)
+                    if j < printed_cap:
+                        r.printed[j] = (r.nprinted, line)
+                if len(other) < 20000 and len(line) < 2000:
+                    other.append(line)
+                continue
+            if len(other) < 200000:
+                other.append(line[:4000])
+            m = re.match(r"^(\d+) states generated, (\d+) distinct states found", line)
+            if m:
+                r.generated, r.distinct = int(m.group(1)), int(m.group(2))
+            m = re.match(r"^The depth of the complete state graph search is (\d+)", line)
+            if m:
+                r.depth = int(m.group(1))
+            m = re.match(r"^Error: Invariant (\S+) is violated", line)
+            if m:
+                r.violated = m.group(1)
+            if line.startswith("Error: Deadlock reached"):
+                r.deadlock = True
+    r.printed = [l for _, l in sorted(r.printed)]
+    r.stdout = "\n".join(other)
     if r.violated or r.deadlock:
-        i = p.stdout.find("Error:")
-        r.trace = p.stdout[i:i + 20000]
-    elif "Error:" in p.stdout or p.returncode not in (0,):
+        i = r.stdout.find("Error:")
+        r.trace = r.stdout[i:i + 20000]
+    elif "Error:" in r.stdout or p.returncode not in (0,):
         # an evaluation / parse error
-        i = p.stdout.find("Error:")
-        r.error = p.stdout[i:i + 3000] if i >= 0 else p.stdout[-3000:]
+        i = r.stdout.find("Error:")
+        r.error = r.stdout[i:i + 3000] if i >= 0 else r.stdout[-3000:]
     return r
 
 
@@ -313,14 +333,17 @@ class Ctx:
 
     # -- generation of cases from a Gen* module
     def gen(self, name, root, consts, spec="GSpec", invariants=("Emit",), simulate=None, timeout=900, workers=None,
-            constraint=None):
+            constraint=None, keep=60000):
+        """TLC prints one CASE line per behaviour; at most `keep` of them (a uniform, seeded sample beyond that) are
+        parsed and returned -- generators may print millions."""
         r = run_tlc(self.sub("gen_" + name), root, consts, spec=spec, invariants=invariants, simulate=simulate,
                     workers=workers or (4 if self.quick else 8), timeout=timeout, seed=self.seed if simulate else None,
-                    constraint=constraint)
+                    constraint=constraint, printed_cap=keep)
         if r.error and not simulate:
             raise ToolError("TLC gen error in %s: %s" % (name, r.error[:2000]))
         cases = parse_case_lines(r.printed)
-        log("[gen] %s: %d cases (%d distinct states) %.1fs" % (name, len(cases), r.distinct, r.wall))
+        log("[gen] %s: %d cases%s (%d distinct states) %.1fs" % (
+            name, r.nprinted, "" if len(cases) == r.nprinted else ", %d kept" % len(cases), r.distinct, r.wall))
         return cases, r
 
     def write_cases(self, name, cases):
